@@ -206,6 +206,19 @@ def st_hierarchy(draw, ids, n_classes=(1, 3), kinds=tuple(MEMBER_KINDS), dag=Fal
         c = {"name": "K%d" % ci, "bases": bases, "root": draw(st.sampled_from(list(root_modes))), "shape": "plain",
              "invs": [], "members": []}
         how = "define" if ci == 0 else draw(st.sampled_from(["define", "define", "define", "skip"]))
+        if how == "skip" and kind in ("getter", "setter", "deleter") and len(bases) == 1 and draw(st.booleans()):
+            # extend the INHERITED property with an accessor it lacks (`@K<owner>.p.deleter`): the accessors that are
+            # re-used from the base are the base's own function objects
+            owner = bases[0]
+            while owner is not None and not any(m["name"] == mname for m in classes[owner]["members"]):
+                owner = classes[owner]["bases"][0] if len(classes[owner]["bases"]) == 1 else None
+            if owner is not None:
+                have = {m["kind"] for m in classes[owner]["members"] if m["name"] == mname}
+                lacking = [k for k in ("setter", "deleter") if k not in have]
+                if lacking and not any(m.get("extends") is not None for m in classes[owner]["members"]):
+                    f = draw(st_func(ids, mname, lacking[0], False, **dict(deco_kw, n_pre=(0, 0))))
+                    f["extends"] = owner
+                    c["members"].append(f)
         if ci > 0 and not bases and draw(st.booleans()):
             # an independent root often provides the member without any precondition
             deco_kw_root = dict(deco_kw)
